@@ -2,12 +2,13 @@ SPECIFICATION Spec
 CONSTANTS
   TimeUnits = {"ns", "us", "ms", "s"}
   LengthUnits = {"angstrom", "mm", "cm", "m", "km"}
-  EnergyUnits = {"ueV", "meV", "eV", "J"}
+  EnergyUnits = {"ueV", "meV", "eV", "keV", "J"}
   AngleUnits = {"rad", "deg"}
   AccelUnits <- MC_AccelFull
   InvLengthUnits <- MC_InvFull
   DTypeSet = {"float64", "float32", "int64", "int32"}
   Kernels <- MC_AllKernels
+  WithShapes = FALSE
   Bug = "none"
 INVARIANT TypeOK
 INVARIANT DimensionOK
